@@ -147,3 +147,28 @@ _R5 = {
 for _pid, _extra in _R5.items():
     _ref, _tech, _text, _note = CHECKS[_pid]
     CHECKS[_pid] = (_ref, _tech, _text + _extra, _note)
+
+# rules added after the review-agent round h1 (DESIGN.md 28.6)
+_H1 = {
+    "C01": " Every iteration over the operation map happens under its lock.",
+    "C03": " The judge no longer assumes that user code lets SDK-level 'fatal' errors propagate: any final error after the body ran needs an accepted FAIL record "
+           "(fatal errors under their own rule id; the step executor's case is a known finding).",
+    "C05": " When the consumer leaves its loop because it was told to stop, it raises a flag the producers look at and releases everything still queued.",
+    "C06": " SUCCEEDED / PENDING are only answered after the wrapper has looked at the checkpoint failure state, and only after the background loop was stopped "
+           "and joined (or an accepted synchronous record) - a failed call that carried only fire-and-forget updates wakes nobody.",
+    "C07": " Lock discipline: no supplied callback and no method taking the same lock is called while a threading.Lock is held; a suspension raised for an "
+           "outstanding invoke / callback lies in the future or is indefinite; the suspend verdict must still hold when it is raised (known finding).",
+    "C09": " A failed item carries the fields of the error its branch recorded; replay() must be bounded by the decision-time snapshot (known finding).",
+    "C10": " An update is enqueued while the lock that covered its orphan guard is still held; a *resumed* operation asks the orphan state before its user code runs.",
+    "C12": " The backoff power cannot overflow before the cap is applied.",
+    "C13": " Absence of a recorded state must be established by `is None` (a truthiness test conflates '' with nothing); an empty payload must survive the wire "
+           "(known finding); a failed restore may not restart the polling (known finding, pinned by a test).",
+    "C15": " Dispatch arms that accept subclass instances and the JSON text round trip of adjacent surrogates are reported (known findings).",
+    "C16": " What is compared with the response limit is the response, not the result text alone; every inline answer is size-checked (ExecutionError arm: known "
+           "finding); the re-traversal of a summarised context is never preceded by an orphan query.",
+    "C18": " The handler result must be strict JSON (NaN: known finding); BaseException-only user exceptions must become FAILED (known finding).",
+    "C20": " Milliseconds are computed by integer arithmetic; the JSON reader tests presence, not truthiness; a field-less error object is not absence (known findings).",
+}
+for _pid, _extra in _H1.items():
+    _ref, _tech, _text, _note = CHECKS[_pid]
+    CHECKS[_pid] = (_ref, _tech, _text + _extra, _note)
